@@ -393,6 +393,21 @@ int simk_chdir(const char *path) {
   return 0;
 }
 
+int simk_fchdir(int fd) {
+  Kernel *k = K;
+  k->enter_call(K_chdir);
+  if (Fault *f = k->fault_for(K_chdir)) FAIL(K_chdir, fd, 0, 0, f->err, RF_INJECTED);
+  Proc *p = k->curproc();
+  FdEnt *e = k->fdent(p, fd);
+  if (!e) FAIL(K_chdir, fd, 0, 0, EBADF, 0);
+  int n = e->ofd->vnode;
+  if (e->ofd->kind != OFD::FILE || n < 0 || k->vfs[(size_t) n].kind != VNode::DIR) FAIL(K_chdir, fd, 0, 0, ENOTDIR, 0);
+  if (!k->vfs[(size_t) n].searchable) FAIL(K_chdir, n, 0, 0, EACCES, 0);
+  p->cwd = n;
+  k->logrec(K_chdir, n, 0, 0, 0, 0);
+  return 0;
+}
+
 int simk_clock_gettime(clockid_t clk, struct timespec *ts) {
   Kernel *k = K; Thread *t = k->cur;
   k->enter_call(K_clock_gettime);
@@ -425,6 +440,13 @@ int simk_nanosleep(const struct timespec *req, struct timespec *rem) {
   Kernel *k = K; Thread *t = k->cur;
   k->enter_call(K_sleep);
   int64_t ns = (int64_t) req->tv_sec * 1000000000 + req->tv_nsec;
+  if (t && t->child) {
+    // the phase between fork and exec runs without interleaving: a sleep there just lets that much time pass
+    k->now_ns += ns;
+    if (rem) { rem->tv_sec = 0; rem->tv_nsec = 0; }
+    k->logrec(K_sleep, ns, 0, 0, 0, 0);
+    return 0;
+  }
   k->park(t, never, k->now_ns + ns, K_sleep);
   if (rem) { rem->tv_sec = 0; rem->tv_nsec = 0; }
   k->logrec(K_sleep, ns, 0, 0, 0, 0);
